@@ -333,7 +333,8 @@ def extract_item(repo: Path, item: Item, log: list, linemap: list, out_line: int
         brace = ms[0].end()
         end = semi + 1
     else:
-        brace = find_body_open(src, ms[0].end() if not item.anchor.rstrip().endswith("{") else ms[0].end() - 1)
+        # the anchor may extend into the body (to tell two impls of the same trait method apart)
+        brace = find_body_open(src, start)
         end = scan_balanced(src, brace, "{", "}")
     sig = src[start:brace]
     body = src[brace:end]
